@@ -103,6 +103,20 @@ impl Interp {
                 };
                 "ok".to_string()
             }
+            "clonefrom" => {
+                // `a.clone_from(&b)`: afterwards `a` is a copy of `b` (both of the same concrete type)
+                let (a, b) = (id(toks[1]), id(toks[2]));
+                let src = self.insts[&b].clone_box();
+                let ok = self.insts.get_mut(&a).expect("harness: unknown id").clone_from_inst(&*src);
+                assert!(ok, "harness: clonefrom between different filter types");
+                let n = self.news[&b].clone();
+                self.news.insert(a, n);
+                match self.last.get(&b).cloned() {
+                    Some(l) => self.last.insert(a, l),
+                    None => self.last.remove(&a),
+                };
+                "ok".to_string()
+            }
             "gutsrt" => {
                 let (a, b) = (id(toks[1]), id(toks[2]));
                 let c = self.insts[&a].gutsrt();
